@@ -1,3 +1,341 @@
-/- C03 — property theorems only (helper lemmas live in `Rooc/Proofs`). -/
+/-
+C03 — End-to-end answers are right.  PROPERTY THEOREMS ONLY (helper lemmas: `Rooc/Proofs/ExpVars.lean`,
+`Rooc/Proofs/RefLemmas.lean`, `Rooc/Proofs/RatInst.lean`).
+
+What is proved here is the specification of the REFERENCE INTERPRETER `Ref.refSolve` that judges every
+end-to-end answer of the real pipeline in `./check C03`: its verdicts are justified against the
+language semantics (`Sem.eval`, `Sem.srcFeasible`, DESIGN.md appendix A) for ALL assignments
+`ρ : String → K`, not only the enumerated ones.  `K` is any linearly ordered field with a floor
+(ℚ, ℝ, …); the definitions are the import-free ones that run at `Rat` inside the oracle
+(`fieldExact_rat` : at `K = ℚ` the two instances coincide).
+
+`Closed m` (decidable) : every variable occurring in the objective or in a constraint is a declared
+variable with a usage mark — true of every model produced from a source text by the front end.
+-/
+import Rooc.Proofs.RefLemmas
+import Rooc.Proofs.RatInst
 namespace Rooc.Props.C03
+open Rooc Rooc.Sem Rooc.Ref Rooc.Exp
+
+variable {K : Type} [Field K] [LinearOrder K] [IsStrictOrderedRing K] [FloorRing K]
+
+/-! ### Congruence: meaning depends only on the variables that occur -/
+
+/-- the value of an expression depends only on the variables that occur in it. -/
+theorem eval_congr {ρ ρ' : String → K} (e : Exp (Ext K)) (h : ∀ s ∈ vars e, ρ s = ρ' s) :
+    eval ρ e = eval ρ' e := Sem.eval_congr e h
+
+/-- feasibility of a closed model depends only on the used declared variables. -/
+theorem srcFeasible_congr {m : Model (Ext K)} {ρ ρ' : String → K} (hc : Closed m = true)
+    (h : ∀ d ∈ m.domain, d.usage > 0 → ρ d.name = ρ' d.name) :
+    srcFeasible m ρ = srcFeasible m ρ' := Ref.srcFeasible_congr hc h
+
+/-- so does the objective. -/
+theorem objective_congr {m : Model (Ext K)} {ρ ρ' : String → K} (hc : Closed m = true)
+    (h : ∀ d ∈ m.domain, d.usage > 0 → ρ d.name = ρ' d.name) :
+    eval ρ m.objective = eval ρ' m.objective := Ref.objective_congr hc h
+
+/-! ### The enumeration is complete -/
+
+/-- COMPLETENESS of the enumeration: whenever the declared domains are enumerable, EVERY assignment that
+puts each used declared variable inside its domain agrees on all those variables with one of the
+enumerated association lists (no distinctness hypothesis on the names is needed: for a repeated name
+the first entry wins in `lookup`, and it carries the value of that name). -/
+theorem assignments_complete (ds : List (DomVar (Ext K))) (asg : List (List (String × K)))
+    (h : assignments ds = some asg) (ρ : String → K)
+    (hρ : ∀ d ∈ ds, d.usage > 0 → inDomain (ρ d.name) d.ty = true) :
+    ∃ a ∈ asg, ∀ d ∈ ds, d.usage > 0 → lookup a d.name = ρ d.name :=
+  Ref.assignments_complete ds asg h ρ hρ
+
+/-- `best` is an arg-min / arg-max fold: its result is a member of the list and no member is strictly
+better in the direction of optimisation. -/
+theorem best_spec {o : OptType} {l : List (K × List (String × K))} {p : K × List (String × K)}
+    (h : best o l = some p) : p ∈ l ∧ ∀ q ∈ l, better o q.1 p.1 = false := Ref.best_spec h
+
+/-! ### 1. `infeasible` -/
+
+/-- the enumerated form: `infeasible` means no enumerated point is feasible. -/
+theorem refSolve_infeasible_spec {m : Model (Ext K)} {asg : List (List (String × K))}
+    (h : refSolve m = .infeasible) (ha : assignments m.domain = some asg) :
+    ∀ a ∈ asg, srcFeasible m (lookup a) = false := by
+  intro a haa
+  cases hf : srcFeasible m (lookup a) with
+  | false => rfl
+  | true =>
+    exfalso
+    have hout := refSolve_outcome m
+    rw [h] at hout
+    cases hout with
+    | infeasible asg' ha' hnil =>
+      rw [ha] at ha'
+      cases ha'
+      have : a ∈ feasList m asg := by simp [feasList, haa, hf]
+      rw [hnil] at this
+      cases this
+
+/-- THE STATEMENT: when the reference says `infeasible`, NO assignment whatsoever satisfies the model. -/
+theorem refSolve_infeasible_sound {m : Model (Ext K)} (h : refSolve m = .infeasible)
+    (hc : Closed m = true) : ∀ ρ : String → K, srcFeasible m ρ = false := by
+  intro ρ
+  cases hf : srcFeasible m ρ with
+  | false => rfl
+  | true =>
+    exfalso
+    have hout := refSolve_outcome m
+    rw [h] at hout
+    cases hout with
+    | infeasible asg ha hnil =>
+      obtain ⟨a, hmem, _⟩ := feasible_has_representative ha hc hf
+      rw [hnil] at hmem
+      cases hmem
+
+/-- converse: if some assignment satisfies a closed model with enumerable domains, the verdict is not
+`infeasible` (and not `continuous`): the reference answers with a solution or reports an undefined
+objective. -/
+theorem refSolve_feasible_not_infeasible {m : Model (Ext K)} {asg : List (List (String × K))}
+    (ha : assignments m.domain = some asg) (hc : Closed m = true) {ρ : String → K}
+    (hf : srcFeasible m ρ = true) : refSolve m ≠ .infeasible ∧ refSolve m ≠ .continuous := by
+  constructor
+  · intro h
+    have := refSolve_infeasible_sound h hc ρ
+    rw [hf] at this
+    cases this
+  · intro h
+    have hout := refSolve_outcome m
+    rw [h] at hout
+    cases hout with
+    | continuous hn => rw [ha] at hn; cases hn
+
+/-- `infeasible` exactly when no assignment satisfies the model (closed model, enumerable domains). -/
+theorem refSolve_infeasible_iff {m : Model (Ext K)} {asg : List (List (String × K))}
+    (ha : assignments m.domain = some asg) (hc : Closed m = true) :
+    refSolve m = .infeasible ↔ ∀ ρ : String → K, srcFeasible m ρ = false := by
+  constructor
+  · intro h; exact refSolve_infeasible_sound h hc
+  · intro hall
+    have hout := refSolve_outcome m
+    have hno : ∀ a, a ∉ feasList m asg := by
+      intro a hmem
+      have := (List.mem_filter.1 hmem).2
+      rw [hall] at this
+      cases this
+    generalize refSolve m = r at hout
+    cases hout with
+    | continuous hn => rw [ha] at hn; cases hn
+    | infeasible => rfl
+    | feasibleAny asg' w rest ha' hfe =>
+      rw [ha] at ha'; cases ha'
+      exact absurd (by rw [hfe]; simp) (hno w)
+    | undefinedObjective asg' a ha' _ hmem =>
+      rw [ha] at ha'; cases ha'
+      exact absurd hmem (hno a)
+    | optimal asg' v w ha' _ hne =>
+      rw [ha] at ha'; cases ha'
+      cases hfl : feasList m asg with
+      | nil => exact absurd hfl hne
+      | cons a _ => exact absurd (by rw [hfl]; simp) (hno a)
+
+/-! ### 2. `optimal v w` -/
+
+/-- THE STATEMENT: when the reference says `optimal v w`, the witness `w` satisfies the model, the
+objective of the text evaluated at `w` is `v`, and NO assignment whatsoever that satisfies the model has a
+strictly better objective value. -/
+theorem refSolve_optimal_spec {m : Model (Ext K)} {v : K} {w : List (String × K)}
+    (h : refSolve m = .optimal v w) :
+    m.optType ≠ .satisfy ∧ srcFeasible m (lookup w) = true ∧ eval (lookup w) m.objective = some v ∧
+      (Closed m = true → ∀ ρ : String → K, srcFeasible m ρ = true →
+        ∀ v', eval ρ m.objective = some v' → better m.optType v' v = false) := by
+  have hout := refSolve_outcome m
+  rw [h] at hout
+  cases hout with
+  | optimal asg _ _ ha hne _ hall hb =>
+    obtain ⟨hmem, hbest⟩ := Ref.best_spec hb
+    obtain ⟨hw, hv⟩ := mem_valList.1 hmem
+    refine ⟨hne, (List.mem_filter.1 hw).2, hv, ?_⟩
+    intro hc ρ hf v' hv'
+    obtain ⟨a, hmem', _, hobj⟩ := feasible_has_representative ha hc hf
+    exact hbest (v', a) (mem_valList.2 ⟨hmem', by rw [hobj, hv']⟩)
+
+/-- the same in order notation: a reported minimum is `≤`, a reported maximum `≥`, the objective of every
+assignment that satisfies the model. -/
+theorem refSolve_optimal_le {m : Model (Ext K)} {v : K} {w : List (String × K)}
+    (h : refSolve m = .optimal v w) (hc : Closed m = true) {ρ : String → K}
+    (hf : srcFeasible m ρ = true) {v' : K} (hv' : eval ρ m.objective = some v') :
+    (m.optType = .min → v ≤ v') ∧ (m.optType = .max → v' ≤ v) := by
+  have hb := (refSolve_optimal_spec h).2.2.2 hc ρ hf v' hv'
+  constructor <;> intro ho <;> rw [ho] at hb <;> simpa [better] using hb
+
+/-- converse: a closed model with enumerable domains, an optimisation direction, some satisfying
+assignment, and an objective that is defined at every satisfying assignment gets the verdict `optimal`. -/
+theorem refSolve_optimal_complete {m : Model (Ext K)} {asg : List (List (String × K))}
+    (ha : assignments m.domain = some asg) (hc : Closed m = true) (ho : m.optType ≠ .satisfy)
+    {ρ : String → K} (hf : srcFeasible m ρ = true)
+    (hdef : ∀ ρ' : String → K, srcFeasible m ρ' = true → (eval ρ' m.objective).isSome = true) :
+    ∃ v w, refSolve m = .optimal v w := by
+  have hout := refSolve_outcome m
+  obtain ⟨hni, hnc⟩ := refSolve_feasible_not_infeasible ha hc hf
+  generalize refSolve m = r at hout hni hnc
+  cases hout with
+  | continuous => exact absurd rfl hnc
+  | infeasible => exact absurd rfl hni
+  | feasibleAny _ _ _ _ _ hs => exact absurd hs ho
+  | undefinedObjective _ a _ _ hmem hnone =>
+    have := hdef (lookup a) (List.mem_filter.1 hmem).2
+    rw [hnone] at this
+    cases this
+  | optimal _ v w => exact ⟨v, w, rfl⟩
+
+/-! ### 3. `feasibleAny w` (objective `satisfy`) -/
+
+/-- when the reference says `feasibleAny w`, the model is a `satisfy` model and `w` satisfies it. -/
+theorem refSolve_feasibleAny_spec {m : Model (Ext K)} {w : List (String × K)}
+    (h : refSolve m = .feasibleAny w) : m.optType = .satisfy ∧ srcFeasible m (lookup w) = true := by
+  have hout := refSolve_outcome m
+  rw [h] at hout
+  cases hout with
+  | feasibleAny asg _ rest ha hfe hs =>
+    refine ⟨hs, ?_⟩
+    have : w ∈ feasList m asg := by rw [hfe]; simp
+    exact (List.mem_filter.1 this).2
+
+/-- converse: a closed `satisfy` model with enumerable domains and some satisfying assignment gets a
+witness. -/
+theorem refSolve_feasibleAny_complete {m : Model (Ext K)} {asg : List (List (String × K))}
+    (ha : assignments m.domain = some asg) (hc : Closed m = true) (ho : m.optType = .satisfy)
+    {ρ : String → K} (hf : srcFeasible m ρ = true) : ∃ w, refSolve m = .feasibleAny w := by
+  have hout := refSolve_outcome m
+  obtain ⟨hni, hnc⟩ := refSolve_feasible_not_infeasible ha hc hf
+  generalize refSolve m = r at hout hni hnc
+  cases hout with
+  | continuous => exact absurd rfl hnc
+  | infeasible => exact absurd rfl hni
+  | feasibleAny _ w => exact ⟨w, rfl⟩
+  | undefinedObjective _ _ _ hs => exact absurd ho hs
+  | optimal _ _ _ _ hs => exact absurd ho hs
+
+/-! ### The remaining two verdicts, so that the case analysis is total -/
+
+/-- `undefinedObjective` : some satisfying assignment has no objective value (division by zero, empty
+min/max or a non-finite literal in the objective), and the model is not a `satisfy` model. -/
+theorem refSolve_undefinedObjective_spec {m : Model (Ext K)} (h : refSolve m = .undefinedObjective) :
+    m.optType ≠ .satisfy ∧
+      ∃ a, srcFeasible m (lookup a) = true ∧ eval (lookup a) m.objective = none := by
+  have hout := refSolve_outcome m
+  rw [h] at hout
+  cases hout with
+  | undefinedObjective asg a _ hs hmem hnone => exact ⟨hs, a, (List.mem_filter.1 hmem).2, hnone⟩
+
+/-- `continuous` exactly when some used declared variable has a non-enumerable (Real) domain. -/
+theorem refSolve_continuous_iff {m : Model (Ext K)} :
+    refSolve m = .continuous ↔ assignments m.domain = none := by
+  have hout := refSolve_outcome m
+  constructor
+  · intro h
+    rw [h] at hout
+    cases hout with
+    | continuous hn => exact hn
+  · intro hn
+    generalize refSolve m = r at hout
+    cases hout with
+    | continuous => rfl
+    | infeasible _ ha => rw [hn] at ha; cases ha
+    | feasibleAny _ _ _ ha => rw [hn] at ha; cases ha
+    | undefinedObjective _ _ ha => rw [hn] at ha; cases ha
+    | optimal _ _ _ ha => rw [hn] at ha; cases ha
+
+/-- "a solution exactly when a satisfying assignment exists" — for the reference. -/
+theorem refSolve_solution_iff {m : Model (Ext K)} {asg : List (List (String × K))}
+    (ha : assignments m.domain = some asg) (hc : Closed m = true)
+    (hdef : ∀ ρ' : String → K, srcFeasible m ρ' = true → (eval ρ' m.objective).isSome = true) :
+    (∃ ρ : String → K, srcFeasible m ρ = true) ↔
+      ((∃ w, refSolve m = .feasibleAny w) ∨ ∃ v w, refSolve m = .optimal v w) := by
+  constructor
+  · rintro ⟨ρ, hf⟩
+    by_cases ho : m.optType = .satisfy
+    · exact Or.inl (refSolve_feasibleAny_complete ha hc ho hf)
+    · exact Or.inr (refSolve_optimal_complete ha hc ho hf hdef)
+  · rintro (⟨w, h⟩ | ⟨v, w, h⟩)
+    · exact ⟨lookup w, (refSolve_feasibleAny_spec h).2⟩
+    · exact ⟨lookup w, (refSolve_optimal_spec h).2.1⟩
+
+/-! ### Non-vacuity: concrete models at `K = ℚ`
+
+The verdicts are COMPUTED (`decide +kernel` on the running definitions, transferred to the theorems'
+instance by `fieldExact_rat`), then the theorems above are applied to them. -/
+section examples
+attribute [local instance 2000] fieldExact
+
+private def c (name : String) (l : Exp (Ext ℚ)) (cmp : Cmp) (r : Exp (Ext ℚ)) : Constraint (Ext ℚ) :=
+  { name := name, lhs := l, cmp := cmp, rhs := r, isAssert := false }
+private def x : Exp (Ext ℚ) := .var "x"
+private def y : Exp (Ext ℚ) := .var "y"
+private def n (q : ℚ) : Exp (Ext ℚ) := .num (.fin q)
+
+/-- `max x + y  s.t.  x + y <= 3,  x in {0..2}, y Boolean`. -/
+def exOpt : Model (Ext ℚ) :=
+  { optType := .max, objective := .bin .add x y, constraints := [c "c" (.bin .add x y) .le (n 3)],
+    domain := [{ name := "x", ty := .int 0 2, usage := 1 }, { name := "y", ty := .bool, usage := 1 }] }
+
+/-- `min x  s.t.  x >= 1, x + y <= 0` — contradictory. -/
+def exInf : Model (Ext ℚ) :=
+  { optType := .min, objective := x,
+    constraints := [c "a" x .ge (n 1), c "b" (.bin .add x y) .le (n 0)],
+    domain := [{ name := "x", ty := .int 0 2, usage := 1 }, { name := "y", ty := .bool, usage := 1 },
+               { name := "unused", ty := .real .ninf .pinf, usage := 0 }] }
+
+/-- `solve  s.t.  x or y` as a bare assertion, `x != y` as `abs(x - y) >= 1`. -/
+def exSat : Model (Ext ℚ) :=
+  { optType := .satisfy, objective := n 0,
+    constraints := [{ name := "a", lhs := .or [x, y], cmp := .eq, rhs := n 0, isAssert := true },
+                    c "b" (.abs (.bin .sub x y)) .ge (n 1)],
+    domain := [{ name := "x", ty := .bool, usage := 1 }, { name := "y", ty := .bool, usage := 1 }] }
+
+/-- `min 1 / x` over `x in {0,1}` : the objective is undefined at the feasible point `x = 0`. -/
+def exUndef : Model (Ext ℚ) :=
+  { optType := .min, objective := .bin .div (n 1) x, constraints := [],
+    domain := [{ name := "x", ty := .bool, usage := 1 }] }
+
+/-- a bounded Real variable : not enumerable. -/
+def exCont : Model (Ext ℚ) :=
+  { optType := .min, objective := x, constraints := [],
+    domain := [{ name := "x", ty := .real (.fin 0) (.fin 1), usage := 1 }] }
+
+example : refSolve exOpt = .optimal 3 [("x", 2), ("y", 1)] := by rw [fieldExact_rat]; decide +kernel
+example : refSolve exInf = .infeasible := by rw [fieldExact_rat]; decide +kernel
+example : refSolve exSat = .feasibleAny [("x", 1), ("y", 0)] := by rw [fieldExact_rat]; decide +kernel
+example : refSolve exUndef = .undefinedObjective := by rw [fieldExact_rat]; decide +kernel
+example : refSolve exCont = .continuous := by rw [fieldExact_rat]; decide +kernel
+example : Closed exOpt = true ∧ Closed exInf = true ∧ Closed exSat = true := by decide
+
+/-- `refSolve_infeasible_sound` applies: NO assignment `ρ : String → ℚ` satisfies `exInf`. -/
+example : ∀ ρ : String → ℚ, srcFeasible exInf ρ = false :=
+  refSolve_infeasible_sound (by rw [fieldExact_rat]; decide +kernel) (by decide)
+
+/-- `refSolve_optimal_spec` applies: no assignment satisfying `exOpt` has `x + y > 3`, and the
+optimum 3 is attained at `x = 2, y = 1`. -/
+example : srcFeasible exOpt (lookup [("x", (2 : ℚ)), ("y", 1)]) = true ∧
+    ∀ ρ : String → ℚ, srcFeasible exOpt ρ = true → ∀ v', eval ρ exOpt.objective = some v' →
+      better .max v' (3 : ℚ) = false := by
+  have h := refSolve_optimal_spec (m := exOpt) (v := 3) (w := [("x", 2), ("y", 1)])
+    (by rw [fieldExact_rat]; decide +kernel)
+  exact ⟨h.2.1, h.2.2.2 (by decide)⟩
+
+/-- `refSolve_feasibleAny_spec` applies. -/
+example : srcFeasible exSat (lookup [("x", (1 : ℚ)), ("y", 0)]) = true :=
+  (refSolve_feasibleAny_spec (m := exSat) (by rw [fieldExact_rat]; decide +kernel)).2
+
+/-- the hypotheses of the converse directions are satisfiable. -/
+example : ∃ w, refSolve exSat = .feasibleAny w :=
+  refSolve_feasibleAny_complete (asg := [[("x", 0), ("y", 0)], [("x", 1), ("y", 0)], [("x", 0), ("y", 1)], [("x", 1), ("y", 1)]])
+    (by rw [fieldExact_rat]; decide +kernel) (by decide) rfl
+    (ρ := lookup [("x", 1), ("y", 0)]) (by rw [fieldExact_rat]; decide +kernel)
+
+/-- the enumeration is what one expects (Boolean = {0,1}, IntegerRange inclusive, unused skipped). -/
+example : assignments exInf.domain =
+    some [[("x", 0), ("y", 0)], [("x", 1), ("y", 0)], [("x", 2), ("y", 0)],
+          [("x", 0), ("y", 1)], [("x", 1), ("y", 1)], [("x", 2), ("y", 1)]] := by
+  rw [fieldExact_rat]; decide +kernel
+
+end examples
+
 end Rooc.Props.C03
